@@ -7,6 +7,7 @@ import (
 	"os"
 	"strings"
 	"sync"
+	"sync/atomic"
 	"time"
 )
 
@@ -99,6 +100,9 @@ type ShardOpts struct {
 	// Died is called when a child died while running a case. It decides whether that is a
 	// violation. If nil, every death is reported as a violation "process-died:<kind>".
 	Died func(caseID string, r *ChildResult)
+	// MaxDeaths bounds the number of child deaths tolerated before the remaining cases are
+	// skipped (a broken tree would otherwise cost one watchdog period per case). Default 12.
+	MaxDeaths int
 	// PerCase, if set, sees every finished case result before it is merged.
 	PerCase func(caseID string, r *CaseResult)
 }
@@ -119,6 +123,15 @@ func (c *Ctx) RunSharded(cases []string, o ShardOpts) {
 	for i, id := range cases {
 		shards[i%o.Workers] = append(shards[i%o.Workers], id)
 	}
+	if o.MaxDeaths == 0 {
+		o.MaxDeaths = 12
+	}
+	var deaths, skipped atomic.Int64
+	defer func() {
+		if n := skipped.Load(); n > 0 {
+			c.Count("cases_skipped_after_repeated_process_deaths", n)
+		}
+	}()
 	var wg sync.WaitGroup
 	for w, sh := range shards {
 		wg.Add(1)
@@ -137,6 +150,10 @@ func (c *Ctx) RunSharded(cases []string, o ShardOpts) {
 		go func(todo []string) {
 			defer wg.Done()
 			for len(todo) > 0 {
+				if deaths.Load() >= int64(o.MaxDeaths) {
+					skipped.Add(int64(len(todo)))
+					return
+				}
 				r := c.RunChild(ChildOpts{
 					Bin: o.Bin, Name: o.Mode,
 					Args:  []string{"child", "cases", c.ID, c.Tier, fmt.Sprint(c.Seed), o.Mode},
@@ -160,6 +177,7 @@ func (c *Ctx) RunSharded(cases []string, o ShardOpts) {
 					return
 				}
 				// the child died (or was killed by the watchdog) inside todo[done]
+				deaths.Add(1)
 				dead := "?"
 				if done < len(todo) {
 					dead = todo[done]
